@@ -62,6 +62,7 @@ type config struct {
 	outerMw  int    // middleware given to the outer group
 	outerUse int    // Use calls inside the outer group before Resource (the group chain is then built by append)
 	strict   bool   // StrictLastSlash: only the clauses that do not depend on the documented paths are asserted
+	cacheCap int    // > 0: route caching with this (small) capacity - the table must not depend on what was requested before
 }
 
 func (c config) has(a string) bool {
@@ -85,7 +86,7 @@ func (c config) String() string {
 		us = append(us, a)
 	}
 	sort.Strings(us)
-	return fmt.Sprintf("actions=%v Uses()=%v(for %v) base=%q groupMw=%d outer=%q(mw=%d,use=%d) strict=%v", as, c.uses, us, c.basePath, c.groupMw, c.outer, c.outerMw, c.outerUse, c.strict)
+	return fmt.Sprintf("actions=%v Uses()=%v(for %v) base=%q groupMw=%d outer=%q(mw=%d,use=%d) strict=%v cache=%d", as, c.uses, us, c.basePath, c.groupMw, c.outer, c.outerMw, c.outerUse, c.strict, c.cacheCap)
 }
 
 func (c config) resName() string {
@@ -107,6 +108,9 @@ func register(c config) *rux.Router {
 	var opts []func(*rux.Router)
 	if c.strict {
 		opts = append(opts, rux.StrictLastSlash)
+	}
+	if c.cacheCap > 0 {
+		opts = append(opts, rux.CachingWithNum(uint16(c.cacheCap)))
 	}
 	r := rux.New(opts...)
 	gm := make([]rux.HandlerFunc, 0, c.groupMw+c.spare) // the caller's slice may have spare capacity
@@ -288,6 +292,9 @@ func prop(t *rapid.T) {
 		c.outerUse = rapid.IntRange(0, 3).Draw(t, "outerUse")
 	}
 	c.strict = rapid.IntRange(0, 5).Draw(t, "strict") == 0
+	if rapid.IntRange(0, 2).Draw(t, "caching") == 0 {
+		c.cacheCap = rapid.IntRange(1, 2).Draw(t, "cacheCap")
+	}
 	id := rapid.OneOf(rapid.StringMatching(`[a-z0-9]{1,4}`), rapid.SampledFrom([]string{"create", "edit", "42", "a.b", "%", "é"})).Draw(t, "id")
 	nuses := 0
 	for _, a := range actions {
@@ -322,7 +329,15 @@ func prop(t *rapid.T) {
 			t.Fatalf("%s: %s", c, msg)
 		}
 		paths := probePaths(c, id)
-		for i, k := 0, rapid.IntRange(2, 8).Draw(t, "nprobes"); i < k; i++ {
+		if c.cacheCap > 0 {
+			// other ids as well: more distinct dynamic paths than the cache holds, and revisits
+			paths = append(paths, c.resPath()+"/7", c.resPath()+"/8", c.resPath()+"/7/edit")
+		}
+		lo, hi := 2, 8
+		if c.cacheCap > 0 {
+			lo, hi = 5, 12
+		}
+		for i, k := 0, rapid.IntRange(lo, hi).Draw(t, "nprobes"); i < k; i++ {
 			p := rapid.SampledFrom(paths).Draw(t, "path")
 			m := rapid.SampledFrom(model.Methods).Draw(t, "method")
 			ev.Eval()
